@@ -2,6 +2,7 @@
 // three kinds of clients (OSS operator, one editor per source, the environment) interleaved by the scheduler, with
 // source-manager faults, delayed / duplicated / lost announcements and crash / restart of the whole world.
 #include "schemakit.hpp"
+extern "C" void __sanitizer_print_stack_trace(void);
 
 #include "ccl/oss/OSSchema.h"
 #include "ccl/env/cclEnvironment.h"
@@ -22,6 +23,7 @@ struct SimSource final : src::Source, types::Observer {
   bool open{ true }, dirty{ false }, exists{ true };
   bool unsavable{ false }, unwritable{ false };
   std::string savedBytes;   // what the store holds
+  change::Hash announcedHash{ 0 }; uint64_t announcedAt{ 0 };   // formal content at the last announced change, and when (simulator event counter)
   SimSource() { schema.AddObserver(*this); }
   ~SimSource() override { schema.RemoveObserver(*this); }
   SimSource(const SimSource&) = delete; SimSource& operator=(const SimSource&) = delete;
@@ -44,6 +46,8 @@ struct SimSourceManager final : SourceManager {
   bool rejectDomain{ false }, createFails{ false }, openFails{ false }, renameRefused{ false }, dupNotify{ false };
   bool crashing{ false };   // the process is "dying": nothing is saved or announced any more
   int localCounter{ 0 };
+  uint64_t tick{ 0 };   // simulator event counter (one per executed op)
+  void Announce(SimSource& s) { if (getenv("OSSDBG")) { fprintf(stderr, "ANNOUNCE tick=%lu src=%s\n", (unsigned long)tick, (const char*)s.fullName.c_str()); __sanitizer_print_stack_trace(); } s.announcedHash = s.CoreHash(); s.announcedAt = tick; OnSourceChange(s); }
   std::map<std::string, uint64_t>* faultCounter{ nullptr };
   void Fired(const char* k) { if (faultCounter) (*faultCounter)[k]++; }
 
@@ -81,13 +85,13 @@ struct SimSourceManager final : SourceManager {
     if (crashing) return false;
     if (!s.open) return false;
     if (s.unsavable) { Fired("save_fails"); return false; }
-    if (s.dirty) { OnSourceChange(s); if (dupNotify) { Fired("duplicated_announcement"); OnSourceChange(s); } }
+    if (s.dirty) { Announce(s); if (dupNotify) { Fired("duplicated_announcement"); Announce(s); } }
     s.Persist(); return true;
   }
   void Close(src::Source& x) override {
     auto& s = dynamic_cast<SimSource&>(x);
     if (crashing) { s.open = false; return; }
-    OnSourceChange(s); OnSourceClose(s);       // as the upstream fake does: announce, then close
+    Announce(s); OnSourceClose(s);       // as the upstream fake does: announce, then close
     s.Persist(); s.open = false;
   }
   void Discard(const src::Descriptor& d) override { if (auto* s = Open(d); s != nullptr) { s->ReleaseClaim(); Close(*s); } }
@@ -103,6 +107,12 @@ class OssSim final : public Engine {
   // freshness bookkeeping
   std::map<PictID, const void*> execWitness;                       // translations pointer seen last
   std::map<PictID, std::map<PictID, change::Hash>> basis;          // p -> parent -> coreHash seen at p's last execution
+  // the harness's own view, independent of what the OSS recorded: which document a pictogram is associated with (kept across close / reopen
+  // as long as the handle still names it), and the formal content each parent's document had when an operation was last executed
+  struct Assoc { SimSource* s; src::Descriptor desc; };
+  std::map<PictID, Assoc> assoc;
+  struct Basis2 { SimSource* s; change::Hash hash; };
+  std::map<PictID, std::map<PictID, Basis2>> basis2; std::map<PictID, uint64_t> execTick;
   int newSrcCounter{ 0 };
   int restartedRecently{ 0 };
   std::map<PictID, std::vector<PictID>> parentModel;               // reference view of the parent relation (from InsertOperation calls / the loaded document)
@@ -154,8 +164,45 @@ class OssSim final : public Engine {
       if (w != nullptr && execWitness[p.uid] != w) {
         execWitness[p.uid] = w; auto& b = basis[p.uid]; b.clear();
         for (auto q : S->Graph().ParentsOf(p.uid)) if (const auto* h = S->Src()(q)) b[q] = h->coreHash;
+        auto& b2 = basis2[p.uid]; b2.clear(); execTick[p.uid] = mgr->tick;
+        for (auto q : S->Graph().ParentsOf(p.uid)) if (auto* sq = SourceOf(q)) b2[q] = Basis2{ sq, sq->CoreHash() };
       }
-      if (w == nullptr) { execWitness.erase(p.uid); basis.erase(p.uid); }
+      if (w == nullptr) { execWitness.erase(p.uid); basis.erase(p.uid); basis2.erase(p.uid); execTick.erase(p.uid); }
+    }
+  }
+  // association model: attached now -> associated; detached -> stays associated while the handle still names the same existing document.
+  // An op that ran with an injected source-manager fault, or a second pictogram naming the same document, ends the association (the OSS may
+  // legitimately not re-attach then).
+  void UpdateAssoc(bool opHadFault) {
+    std::map<std::u8string, int> named;
+    for (const auto& p : *S) if (const auto* h = S->Src()(p.uid); h && !h->empty()) named[h->desc.name]++;
+    for (const auto& p : *S) {
+      const auto* h = S->Src()(p.uid);
+      if (h == nullptr || h->empty()) { assoc.erase(p.uid); continue; }
+      if (h->src != nullptr) { if (auto* ss = dynamic_cast<SimSource*>(h->src)) assoc[p.uid] = Assoc{ ss, h->desc }; else assoc.erase(p.uid); continue; }
+      auto it = assoc.find(p.uid); if (it == assoc.end()) continue;
+      SimSource* ss = it->second.s;
+      const bool live = ss->exists && std::any_of(mgr->sources.begin(), mgr->sources.end(), [&](auto& u) { return u.get() == ss; });
+      if (!live || opHadFault || named[h->desc.name] > 1 || !(h->desc == it->second.desc) || !(mgr->Convert2Local(mgr->GetDescriptor(*ss), S->Src().ossDomain) == h->desc)) assoc.erase(it);
+    }
+    for (auto it = assoc.begin(); it != assoc.end();) if (!S->Contains(it->first)) it = assoc.erase(it); else ++it;
+  }
+  // independent of the OSS's own records: an announced change of the document associated with a parent, made after the last execution and
+  // giving it a formal content different from the one the execution used, means the operation must not report done
+  void CheckFreshnessModel(Ctx& c, const std::string& trig) {
+    c.Oracle("freshness_model");
+    for (const auto& p : *S) {
+      const auto* op = S->Ops()(p.uid); if (op == nullptr || !basis2.count(p.uid)) continue;
+      const auto* h = S->Src()(p.uid); if (h == nullptr || h->empty()) continue;
+      if (S->Ops().StatusOf(p.uid) != ops::Status::done) continue;
+      for (auto& [q, b] : basis2[p.uid]) {
+        auto it = assoc.find(q); if (it == assoc.end() || it->second.s != b.s || !b.s->exists) continue;
+        if (b.s->announcedAt > execTick[p.uid] && b.s->announcedHash != b.hash) {
+          c.Probe(SourceOf(q) == nullptr ? "announced_change_of_detached_parent_document" : "announced_change_of_attached_parent_document");
+          c.Fail("C19", "done_but_announced_change", trig + (SourceOf(q) == nullptr ? "/parent-document-not-attached" : "/parent-document-attached"), "operation " + std::to_string(p.uid) + " reports done although a change of the document of its parent " + std::to_string(q) + " was announced after its last execution and altered the formal content (executed at event " + std::to_string(execTick[p.uid]) + ", announced at event " + std::to_string(b.s->announcedAt) + ", hash at execution " + std::to_string(b.hash) + ", announced " + std::to_string(b.s->announcedHash) + ", recorded by the OSS " + std::to_string(S->Src()(q)->coreHash) + ", document now " + std::to_string(b.s->CoreHash()) + ")");
+          return;
+        }
+      }
     }
   }
   void CheckFreshness(Ctx& c, const std::string& trig) {
@@ -189,12 +236,13 @@ public:
   std::vector<std::string> Properties() const override { return { "C19", "C12" }; }
   uint64_t DefaultRuns(const std::string&, bool thorough) const override { return thorough ? 120000 : 4000; }
   Cfg GenCfg(Rng& r, const std::string&, bool thorough) override {
-    Cfg c; c["steps"] = thorough ? r.Range(10, 90) : r.Range(10, 50); c["max_picts"] = thorough ? r.Range(3, 12) : r.Range(3, 9);
+    Cfg c; c["steps"] = thorough ? r.Range(10, 90) : r.Range(10, 50); c["max_picts"] = thorough ? r.Range(3, 12) : r.Range(3, 9); c["p_recovery"] = r.Pct(30) ? 0 : r.Range(4, 25);
     c["uid_policy"] = r.Range(0, 4); c["uid_range"] = r.Range(8, 24);
     c["expr_depth"] = r.Range(1, 2); c["p_mutant"] = r.Pct(60) ? 0 : r.Range(3, 15);
     c["p_fault"] = r.Pct(35) ? 0 : r.Range(2, 15);
     c["w_operator"] = r.Range(3, 8); c["w_exec"] = r.Range(2, 8); c["w_editor"] = r.Range(2, 8); c["w_env"] = r.Range(1, 6);
     c["domain"] = r.Pct(30);
+    c["storm_after"] = r.Pct(25) ? r.Range(12, 30) : 0;
     return c;
   }
   void Begin(Ctx& c) override {
